@@ -345,6 +345,8 @@ def _advance_rposition(ck, R, F, b, names):
     a key made only of 0xFF bytes (or empty) has no successor."""
     if "truncate" not in names and "push" in names:
         return _advance_rposition_copy(ck, R, F, b, names)
+    if "truncate" not in names and "to_vec" in names:
+        return _advance_rposition_tovec(ck, R, F, b, names)
     ck.ob(R, "calls", set(names) <= {"deref", "deref_mut", "iter", "rposition", "branch", "from_residual", "truncate", "index_mut", "index"}, f"advance_key calls {names}", b, nontrivial=False)
     rp = calls(b, "::rposition")
     tr = calls(b, "Vec::<T, A>::truncate") or calls(b, "::truncate")
@@ -445,3 +447,49 @@ def _advance_rposition_copy(ck, R, F, b, names):
     ok_s = len(some_ret) == 1 and some_ret[0].x.get("site") is not None and b.dominates(psh[0], some_ret[0].x["site"]) and some_ret[0].a[0].strip().ident() == pa[0].strip().ident()
     ck.ob(R, "arm/no-overflow", bool(ok_s), "after the head and the incremented byte were appended, Some(that vector) is returned", b)
     ck.ob(R, "arm/empty", len(none_ret) == 1 and len(rets) == 2, "no byte can be incremented (rposition is None): None is returned (and these are the only two exits)", b)
+
+
+def _advance_rposition_tovec(ck, R, F, b, names):
+    """fourth accepted idiom of advance_key — the head is copied, then its last byte incremented in place:
+         let last = bytes.iter().rposition(|&b| b != 0xFF)?;  let mut next = bytes[..=last].to_vec();  next[last] += 1;  Some(next)"""
+    allowed = {"as_ref", "deref", "deref_mut", "iter", "rposition", "branch", "from_residual", "to_vec", "index", "index_mut", "as_slice", "starts_with", "gt", "lt", "begin_panic", "panic", "panic_fmt"}
+    ck.ob(R, "calls", set(names) <= allowed, f"advance_key calls {names}", b, nontrivial=False)
+    rp = calls(b, "::rposition")
+    tv = [s for s, c, t in b.calls() if c and callee_name(c).endswith("::to_vec")]
+    if not (len(rp) == 1 and len(tv) == 1 and not b.loops()):
+        ck.ob(R, "shape", False, "advance_key is none of the recognised forms", b)
+        return
+    ck.ob(R, "arm/overflow", _rposition_not_ff(F, b, rp[0]), "trailing 0xFF bytes are skipped: rposition over bytes.iter() with the predicate `byte != 0xFF` finds the last byte that can be incremented", b, rp[0][0])
+    src = b.arg_exprs(tv[0])[0].strip()
+    ok_head = False
+    if src.k == "call" and src.x["path"].endswith("::index") and any(x.k == "arg" and x.x.get("name") == "bytes" for x in src.a[0].walk()) and src.a[1].k == "agg":
+        rng = src.a[1]
+        kind = (rng.x.get("adt") or "").rsplit("::", 1)[-1]
+        if kind == "RangeToInclusive" and _is_last(rng.a[0], rp[0][0]):
+            ok_head = True
+        if kind == "RangeTo":
+            c_ = checked(rng.a[0])
+            ok_head = bool(c_ and c_[0] == "Add" and const_val(c_[2]) == 1 and _is_last(c_[1], rp[0][0]))
+    ck.ob(R, "arm/overflow-truncates", ok_head, f"the successor is a copy of bytes[..=last] ({src.show()[:60]}): the bytes after the incrementable one are dropped", b, tv[0])
+    okw, wsite = False, None
+    for s_, st in b.sites():
+        if s_.i is not None and st["s"] == "assign" and st["pl"]["p"] == ["*"]:
+            tgt = b.expr_of_local(st["pl"]["l"], s_).strip()
+            cv = checked(b._expr_of_def((s_, "assign", st["rv"])))
+            if tgt.k == "call" and tgt.x["path"].endswith("::index_mut") and _is_call_at(tgt.a[0], tv[0]) and _is_last(tgt.a[1], rp[0][0]) \
+                    and cv and cv[0] == "Add" and const_val(cv[2]) == 1 and cv[1].strip().ident() == tgt.ident():
+                okw, wsite = True, s_
+    ck.ob(R, "increments-last-byte-by-one", okw, "next[last] = next[last] + 1 on the byte rposition found (the last byte of the copy)", b, wsite)
+    rets = return_alts(b)
+    some_ret = [alt for alt in rets if alt.k == "agg" and alt.x.get("variant") == "Some"]
+    none_ret = [alt for alt in rets if (alt.k == "agg" and alt.x.get("variant") == "None") or (alt.k == "call" and alt.x["path"].endswith("::from_residual") and any(x.k == "call" and x.x.get("site") == rp[0][0] for x in alt.walk()))]
+    ok_s = len(some_ret) == 1 and wsite is not None and some_ret[0].x.get("site") is not None and b.dominates(wsite, some_ret[0].x["site"]) and _is_call_at(some_ret[0].a[0], tv[0])
+    ck.ob(R, "arm/no-overflow", ok_s, "after the increment Some(that copy) is returned", b)
+    ck.ob(R, "arm/empty", len(none_ret) == 1 and len(rets) == 2, "no byte can be incremented (rposition is None): None is returned (and these are the only two exits)", b)
+
+
+def _is_call_at(e, site):
+    """e is (a borrow of) the result of the call at `site` — without looking through calls that copy their argument"""
+    while e.k in ("ref", "deref"):
+        e = e.a[0]
+    return e.k == "call" and e.x.get("site") == site
